@@ -29,6 +29,9 @@ struct Raw
     struct StorageProperties properties;
     struct file file;
     size_t offset;
+
+    /// 1 while `file` is an open file owned by this device, otherwise 0.
+    uint8_t is_open;
 };
 
 static enum DeviceState
@@ -83,6 +86,7 @@ raw_start(struct Storage* self_)
     struct Raw* self = containerof(self_, struct Raw, writer);
     CHECK(file_create(
       &self->file, self->properties.uri.str, self->properties.uri.nbytes));
+    self->is_open = 1;
     LOG("RAW: Frame header size %d bytes", (int)sizeof(struct VideoFrame));
     return DeviceState_Running;
 Error:
@@ -93,7 +97,11 @@ static enum DeviceState
 raw_stop(struct Storage* self_)
 {
     struct Raw* self = containerof(self_, struct Raw, writer);
-    file_close(&self->file);
+    // only close a file this device opened, and only once
+    if (self->is_open) {
+        file_close(&self->file);
+        self->is_open = 0;
+    }
     return DeviceState_Armed;
 }
 
